@@ -180,6 +180,7 @@ def check(tier, seed):
         reach_probes=probes,
         work_modes={k[6:]: v for k, v in stats_all.items() if k.startswith('wmode.')},
         view_modes={k[6:]: v for k, v in stats_all.items() if k.startswith('vmode.')},
+        scheduler_modes={k[6:]: v for k, v in stats_all.items() if k.startswith('sched.')},
         stacks={k[6:]: v for k, v in stats_all.items() if k.startswith('stack.')},
         tracked_accesses=stats_all.get('tracked_accesses', 0),
         synchronisation_modelled={k[5:]: v for k, v in stats_all.items() if k.startswith('sync.')},
